@@ -35,6 +35,7 @@ type SiteAssert struct {
 
 type LoopSpec struct {
 	Invariants []Clause
+	StepAsserts []Clause // checked at the end of every iteration (may speak about this iteration's call sites)
 	Unroll     int
 }
 
@@ -59,6 +60,7 @@ type Contract struct {
 	Modifies []Clause // expressions naming the cells a call may modify; nil+!Pure => everything reachable
 	ModSet   bool
 	Notes    []string
+	LoopFrames bool // (pure functions) memory that existed on entry keeps its contents through loops
 	FrameTrusted string // reason why the frame condition is trusted rather than checked syntactically
 	Stable   []string // parameters (pointers to structs) whose own cells no callee modifies
 }
@@ -302,6 +304,8 @@ func parseContractFile(path string) (*ContractFile, error) {
 			for _, d := range strings.Fields(rest) {
 				cur.Dead[d] = true
 			}
+		case "loop-frames":
+			cur.LoopFrames = true
 		case "frame-trusted":
 			cur.FrameTrusted = rest
 			if rest == "" {
@@ -389,6 +393,12 @@ func parseContractFile(path string) (*ContractFile, error) {
 					return nil, err
 				}
 				ls.Invariants = append(ls.Invariants, c)
+			case "step-assert":
+				c, err := parseClause(fs[2], path, ln)
+				if err != nil {
+					return nil, err
+				}
+				ls.StepAsserts = append(ls.StepAsserts, c)
 			case "unroll":
 				n, err := strconv.Atoi(strings.TrimSpace(fs[2]))
 				if err != nil {
